@@ -259,18 +259,21 @@ def shard(ctx, budget_s, n_http, n_rpc, maxlen):
             ctx.violation("%s:unsegmented_unanswered" % kind, "complete valid request not answered when delivered in one segment", observed=r0.kind,
                           frames=[ref[0][0][3]], extra={"stream": stream.hex()})
             continue
-        if kind == "http_neg" and ref_payload is not None:
-            ctx.stats["negative_answered_unsegmented(C13)"] += 1
-            continue
         # cross-check the grammar's trigger byte against the byte-wise run
         bw = [segs for cuts, segs in res if cuts == list(range(1, len(stream)))]
+        okind = kind
+        if kind == "http_neg" and ref_payload is not None:
+            # whether such a stream *should* be answered is C13's business; that it is answered in one piece makes it, for
+            # this property, a stream that has to be answered - with the same content, at the same byte - however it is cut
+            ctx.stats["negative_answered_unsegmented(C13)"] += 1
+            okind, kind = "http_neg", "rpc_odd"
         if kind == "rpc_odd":
             if ref_payload is None or not bw:
                 ctx.stats["rpc_odd_unanswered_unsegmented"] += 1
                 continue
             trig = next((i for i, x in enumerate(bw[0]) if x[4].kind == "R" and pkt.parse(x[4].reply).get("data")), None)
             if trig is None:
-                ctx.violation("rpc_odd:bytewise_unanswered", "stream answered in one segment but never when delivered byte by byte", observed="no reply",
+                ctx.violation(okind + ":bytewise_unanswered", "stream answered in one segment but never when delivered byte by byte", observed="no reply",
                               frames=[x[3] for x in bw[0][:60]], extra={"stream": stream.hex(), "cuts": list(range(1, len(stream)))})
                 continue
         if bw and ref_payload is not None and kind != "rpc_odd":
